@@ -140,6 +140,18 @@ impl WorkerReport {
             }
             return None;
         }
+        if !rep.violations.is_empty() && sigq_exhausted() {
+            // The kernel's per-user quota of queued signals (RLIMIT_SIGPENDING, shared by every
+            // process of this user on the machine) is used up by someone else: real-time signals
+            // are refused with EAGAIN and ordinary ones arrive without their siginfo. Whatever a
+            // case built on real signals observed under that condition says nothing about the
+            // library: no verdict.
+            self.inconclusive += 1;
+            if self.inconclusive_notes.len() < 5 {
+                self.inconclusive_notes.push("per-user queued-signal quota (RLIMIT_SIGPENDING) exhausted by other processes: real signal deliveries unreliable, case not judged".into());
+            }
+            return None;
+        }
         let mut own: Option<Viol> = None;
         let mut foreign = false;
         for v in &rep.violations {
@@ -180,6 +192,21 @@ impl WorkerReport {
         }
         own
     }
+}
+
+/// true when fewer than 2000 queued signals are left to this user (see `absorb`)
+pub fn sigq_exhausted() -> bool {
+    if let Ok(st) = std::fs::read_to_string("/proc/self/status") {
+        for l in st.lines() {
+            if let Some(r) = l.strip_prefix("SigQ:") {
+                let mut it = r.trim().split('/');
+                let used: u64 = it.next().and_then(|x| x.trim().parse().ok()).unwrap_or(0);
+                let lim: u64 = it.next().and_then(|x| x.trim().parse().ok()).unwrap_or(u64::MAX);
+                return used + 2000 >= lim;
+            }
+        }
+    }
+    false
 }
 
 /// known_findings.json (committed; read-only at run time)
